@@ -296,7 +296,7 @@ func (r *refCache) apply(ents []*entObj, o linOp) string {
 		return "ok"
 	case "invalidate":
 		// the mappings that lead to the identifier go whether or not an entry is still filed under it
-		// (fix 93a7a4b); the result says whether there was an entry
+		// (fix 94c25e6); the result says whether there was an entry
 		_, had := r.sess[o.a]
 		delete(r.sess, o.a)
 		for ck, k := range r.cmds {
